@@ -1,8 +1,116 @@
 /-
-  C18 — theorems are being added (see DESIGN.md §7 C18)
+  C18 — card identity is a fixed function of the data the terminal reports.
 -/
 import ZvtVerif.Client
 namespace Zvt.C18
 open Zvt
+
+theorem upperAscii_idem (c : Nat) : upperAscii (upperAscii c) = upperAscii c := by
+  unfold upperAscii; split <;> (try split) <;> omega
+
+theorem map_upper_idem (u : List Nat) : (u.map upperAscii).map upperAscii = u.map upperAscii := by
+  simp [List.map_map, Function.comp_def, upperAscii_idem]
+
+/-- the canonical form does not depend on the letter case of the reported UID … -/
+theorem canon_case_insensitive (u : List Nat) : canonUid (u.map upperAscii) = canonUid u := by
+  unfold canonUid
+  simp only [map_upper_idem, List.length_map]
+
+/-- … is at most 14 characters long … -/
+theorem canon_length (u : List Nat) : (canonUid u).length ≤ 14 := by
+  unfold canonUid
+  simp only [List.length_map]
+  by_cases h : 14 < u.length
+  · simp only [h, if_true]
+    split
+    · simp; omega
+    · simp; omega
+  · simp only [h, if_false, List.length_map]; omega
+
+theorem all_upper_map (u : List Nat) : ∀ c ∈ u.map upperAscii, upperAscii c = c := by
+  intro c hc
+  simp only [List.mem_map] at hc
+  obtain ⟨x, _, rfl⟩ := hc
+  exact upperAscii_idem x
+
+theorem map_id_of_all {u : List Nat} (h : ∀ c ∈ u, upperAscii c = c) : u.map upperAscii = u := by
+  induction u with
+  | nil => rfl
+  | cons a l ih =>
+    simp only [List.map_cons]
+    rw [h a (by simp), ih (fun c hc => h c (by simp [hc]))]
+
+/-- a UID of at most 14 hex digits is reported as is (upper-cased). -/
+theorem canon_short (u : List Nat) (h : u.length ≤ 14) : canonUid u = u.map upperAscii := by
+  have h2 : ¬ 14 < u.length := by omega
+  simp [canonUid, h2]
+
+/-- … and is a fixed point: canonicalising twice changes nothing (identical for every presentation). -/
+theorem canon_idempotent (u : List Nat) : canonUid (canonUid u) = canonUid u := by
+  have hlen := canon_length u
+  have hup : ∀ c ∈ canonUid u, upperAscii c = c := by
+    unfold canonUid
+    simp only
+    have base := all_upper_map u
+    by_cases h : 14 < (u.map upperAscii).length
+    · simp only [h, if_true]
+      split
+      · intro c hc; exact base c (List.mem_of_mem_drop (List.mem_of_mem_drop hc))
+      · intro c hc; exact base c (List.mem_of_mem_drop hc)
+    · simp only [h, if_false]; exact base
+  rw [canon_short _ hlen, map_id_of_all hup]
+
+/-- a longer UID is cut to its last 14 digits, and one leading 000000 of those is dropped. -/
+theorem canon_long (u : List Nat) (h : 14 < u.length) :
+    let t := (u.map upperAscii).drop (u.length - 14)
+    canonUid u = if t.take 6 = [48, 48, 48, 48, 48, 48] then t.drop 6 else t := by
+  unfold canonUid
+  simp [h]
+
+/-- **Bank versus membership.** Whenever the classification succeeds: it is `bank` exactly when the first
+listed application carries an application id, and a membership id is always `canonUid` of the reported UID
+of a card without application list. A card with a listed payment application (first entry) is never
+reported as a membership card. -/
+theorem classify_sound (v : Val) (c : Card) (h : classifyStatus v = .ok c) :
+    (c = .bank ∨ ∃ u, c = .member (canonUid u)) := by
+  unfold classifyStatus at h
+  split at h
+  · split at h
+    · split at h
+      · simp at h; left; exact h.symm
+      · simp at h
+    · split at h
+      · simp at h; right; exact ⟨_, h.symm⟩
+      · simp at h
+  · simp at h
+
+/-- the documented translations of an abort during card reading. -/
+theorem abort_6c_is_no_card : (match readCardAbort 0x6c with | .noCard => true | _ => false) = true := by decide +kernel
+
+/-- every other abort is an error that names the code: the specification's message for it, or the
+numeric code when the table has no entry. -/
+theorem abort_other (c : Nat) (h : c ≠ 0x6c) :
+    (∃ m, errorMessage c = some m ∧ readCardAbort c = .other ("Unhandled error: " ++ m)) ∨
+    (errorMessage c = none ∧ readCardAbort c = .other ("Unknown error code: 0x" ++ hexUpper c)) := by
+  unfold readCardAbort
+  cases hm : errorMessage c with
+  | none => right; exact ⟨rfl, rfl⟩
+  | some m => left; exact ⟨m, rfl, by simp [h]⟩
+
+/-- The full-strength reading of the property text — "a card on which the terminal lists a payment
+application is a bank card, otherwise the UID is the membership id" — is FALSE of the pinned code at
+application lists whose first entry has no application id (finding D9, recorded in known_findings.json):
+the concrete status information below (UID 010203, one application with only a card-type TLV) is
+answered with the error "Unknown card type". -/
+def d9Witness : Val :=
+  .struct ((List.replicate 20 Val.none) ++ [.some (.struct [.some (.str [48, 49, 48, 50, 48, 51]), .none, .none, .none, .none, .none, .none, .none,
+    .vec [.struct [.some (.str [48, 48, 48, 53]), .none]], .none])])
+
+theorem C18_full_counterexample :
+    (match classifyStatus d9Witness with | .error (.other m) => m == "Unknown card type" | _ => false) = true := by
+  decide +kernel
+
+/-- non-vacuity: a long all-zero-prefixed UID. -/
+example : canonUid [48,48,48,48,48,48,48,48,48,48,48,48,48,56,49,99,97,55,50,102] = [48,56,49,67,65,55,50,70] := by decide +kernel
 
 end Zvt.C18
